@@ -20,6 +20,7 @@
    * asyncio.Server.wait_closed has the Python 3.12.1 semantics: it returns when the listening sockets
      are closed AND every accepted connection has had connection_lost. *)
 From Coq Require Import List Bool Arith.
+From GV Require Import Gen.FactsC09.
 Import ListNotations.
 
 (* ---- user handler programs -------------------------------------------------------------------- *)
@@ -195,7 +196,8 @@ Record conn := mkConn {
   closing : bool;        (* Handler.closing *)
   in_handlers : bool;    (* handler is in Server._handlers *)
   gcn : nat;             (* Handler._gc_counter *)
-  crashed : bool         (* an exception escaped H2Protocol.data_received on this connection *)
+  crashed : bool         (* an exception escaped H2Protocol.data_received on this connection (no operation
+                            of the model sets it any more; the harness reports what it observes) *)
 }.
 
 Record server := mkServer {
@@ -218,7 +220,8 @@ Record state := mkState { tasks : list task; conns : list conn; srv : server; ws
 
 Definition init : state := mkState [] [] (mkServer false false false 0 false) WNone.
 
-Definition gc_interval : nat := 10.     (* Handler.__gc_interval__ = Server.__gc_interval__ = 10 *)
+(* Handler.__gc_interval__ and Server.__gc_interval__ come from Gen.FactsC09 (regenerated from the
+   source on every run): handler_gc_interval, server_gc_interval *)
 
 Definition conn_at (s : state) (c : nat) : option conn := nth_error (conns s) c.
 Definition conn_open (s : state) (c : nat) : bool :=
@@ -309,11 +312,13 @@ Definition processor_close (s : state) (c : nat) (is_lost : bool) : state :=
   end.
 
 (* process_stream_reset: stream = streams.get(id); if stream is not None:
-   stream.__terminated__(msg); handler.cancel(stream) *)
+   stream.__terminated__(msg); handler.cancel(stream)
+   Handler.cancel: task = self._tasks.pop(stream, None); if task is not None: task.cancel();
+   self._cancelled.add(task)   -- a stream whose finished task was already collected is tolerated *)
 Definition rst_task (t : task) : task :=
   let t1 := terminated (set_h2reset t true) in
   if in_tasks t1 then task_cancel (set_sets t1 false true)   (* pop; task.cancel(); _cancelled.add *)
-  else t1.                                                   (* self._tasks.pop(stream) raises KeyError *)
+  else t1.                                                   (* pop(stream, None) gave None *)
 
 Definition step (s : state) (o : op) : state :=
   match o with
@@ -324,7 +329,7 @@ Definition step (s : state) (o : op) : state :=
   | Connect =>
       if listening (srv s) then
         let n := S (sgc (srv s)) in
-        let (l, cs) := if n mod gc_interval =? 0 then server_gc (tasks s) (conns s) 0
+        let (l, cs) := if n mod server_gc_interval =? 0 then server_gc (tasks s) (conns s) 0
                        else (tasks s, conns s) in
         mkState l (cs ++ [mkConn true false false true 0 false])
                 (mkServer (started (srv s)) (listening (srv s)) (latch (srv s)) n (serr (srv s))) (wst s)
@@ -334,7 +339,7 @@ Definition step (s : state) (o : op) : state :=
       | Some k, None =>
           if proc_open k then
             let n := S (gcn k) in
-            let l := if n mod gc_interval =? 0 then on_conn_tasks c collect_task (tasks s) else tasks s in
+            let l := if n mod handler_gc_interval =? 0 then on_conn_tasks c collect_task (tasks s) else tasks s in
             mkState (l ++ [new_task c i p b dl])
                     (upd_nth (conns s) c (fun k => mkConn (proc_open k) (lost k) (closing k) (in_handlers k) n (crashed k)))
                     (srv s) (wst s)
@@ -360,11 +365,7 @@ Definition step (s : state) (o : op) : state :=
         match find_task c i (tasks s) with
         | Some t =>
             if registered t && negb (h2reset t) then
-              mkState (on_task c i rst_task (tasks s))
-                      (if in_tasks t then conns s
-                       else upd_nth (conns s) c (fun k => mkConn (proc_open k) (lost k) (closing k)
-                                                                  (in_handlers k) (gcn k) true))
-                      (srv s) (wst s)
+              mkState (on_task c i rst_task (tasks s)) (conns s) (srv s) (wst s)
             else s
         | None => s
         end
